@@ -247,11 +247,18 @@ def finish(run: Run, level_text, assumptions, undecided, extra=None, out=print):
         for s in c.samples:
             samples.append({"rule": r.id, "instance": s})
 
+    # one report per distinct finding key (a finite-domain rule may hit the same construct in many cases)
+    grouped = {}
+    for v, k in new:
+        grouped.setdefault(v.key, []).append(v)
+    all_new = new
+    new = [(vs[0], None) for vs in grouped.values()]
     replay_paths = []
     for i, (v, _) in enumerate(new):
         p = os.path.join(vio_dir, f"{prop}-{i}.json")
         with open(p, "w") as f:
-            json.dump({"property": prop, **v.as_dict()}, f, indent=1)
+            json.dump({"property": prop, **v.as_dict(), "instances": len(grouped[v.key]),
+                       "other_instances": [x.message for x in grouped[v.key][1:6]]}, f, indent=1)
         replay_paths.append(p)
 
     errs = run.errors()
@@ -279,7 +286,7 @@ def finish(run: Run, level_text, assumptions, undecided, extra=None, out=print):
             "samples": samples[:40] or [{"note": "no sample recorded"}],
             "undecided_clauses": undecided,
             "known_findings_matched": [{"key": v.key, "what": k.get("what")} for v, k in matched],
-            "new_violations": [v.as_dict() for v, _ in new],
+            "new_violations": [v.as_dict() for v, _ in new][:50],
             "analysis_errors": [{"rule": r, "error": e} for r, e in errs],
             **(extra or {}),
         },
@@ -302,7 +309,8 @@ def finish(run: Run, level_text, assumptions, undecided, extra=None, out=print):
         out(f"KNOWN-FINDING: property={prop} {k.get('what')} [{v.key}]")
     for (v, _), p in zip(new, replay_paths):
         loc = f"{v.file}:{v.line}" if v.file else "?"
-        out(f"  {v.rule} at {loc} in {v.func}: {v.message}")
+        more = len(grouped[v.key]) - 1
+        out(f"  {v.rule} at {loc} in {v.func}: {v.message}" + (f"  (+{more} more instances)" if more else ""))
         out(f"VIOLATION property={prop} replay={p}")
     if new:
         return 1
